@@ -2,6 +2,7 @@ SPECIFICATION Spec
 CONSTANT CONFS = {1, 2, 3, 4, 5, 6, 7, 8, 9, 10}
 CONSTANT TRS = {1, 2, 3, 4, 5, 6, 7, 8}
 CONSTANT LAYS = {0, 1, 2, 3}
+CONSTANT BOTHMODES = TRUE
 CONSTANT PATS = {1, 2, 3, 4, 5, 6}
 INVARIANT PremiseHolds
 INVARIANT Linear
